@@ -353,6 +353,13 @@ impl<'a> Gen<'a> {
             0 | 1 | 2 => QueryOp::Balance { who: Target::SelfAddr, denom: self.rng.below(self.n_denoms as u64) as u32 },
             3 => QueryOp::Balance { who: self.target_any(), denom: self.rng.below(self.n_denoms as u64 + 1) as u32 },
             4 => QueryOp::AllBalances { who: self.target_any() },
+            5 if self.rng.chance(1, 4) => {
+                if self.rng.chance(1, 3) {
+                    QueryOp::AllDenomMeta
+                } else {
+                    QueryOp::DenomMeta { denom: self.rng.below(self.n_denoms as u64 + 1) as u32 }
+                }
+            }
             5 => QueryOp::Supply { denom: self.rng.below(self.n_denoms as u64) as u32 },
             6 | 7 => QueryOp::Raw { contract: self.target_contract(), key: self.recent_or_key() },
             8 | 9 => {
@@ -666,6 +673,7 @@ impl<'a> Gen<'a> {
                 self.huge_left -= n;
                 Op::MintRaw { to: Target::Account(self.rng.below(self.n_accounts as u64) as u32), coins }
             }
+            3 if self.rng.chance(1, 8) => Op::SetDenomMeta { denom: self.rng.below(self.n_denoms as u64) as u32, tag: self.rng.below(3) as u8 },
             3 if !self.many_done && self.rng.chance(1, 12) => {
                 // one account comes to hold more than a hundred denominations
                 self.many_done = true;
